@@ -260,7 +260,7 @@ def run_driver(cases, workdir, tag="cases", sub="gen", timeout=3000):
     return res
 
 
-def run_batch(cases, workdir, tag, real=True, shim=False, timeout=3000, extra_fields=None):
+def run_batch(cases, workdir, tag, real=True, shim=False, timeout=3000, extra_fields=None, env=None):
     """driver batch: generator + compile against the real crates (check.jsonl) and/or run against the
     recording shim (obs.jsonl). Returns the gen results with 'compile'/'diagnostics'/'obs' merged in."""
     os.makedirs(workdir, exist_ok=True)
@@ -275,7 +275,10 @@ def run_batch(cases, workdir, tag, real=True, shim=False, timeout=3000, extra_fi
                 d.update(extra_fields[i])
             f.write(json.dumps(d, ensure_ascii=False) + "\n")
     cmd = [DRIVER, "batch", cin, outdir] + (["--real"] if real else []) + (["--shim"] if shim else [])
-    rc, out = sh(cmd, timeout=timeout, env={"CARGO_NET_OFFLINE": "true"})
+    e = {"CARGO_NET_OFFLINE": "true"}
+    if env:
+        e.update(env)
+    rc, out = sh(cmd, timeout=timeout, env=e)
     if rc != 0:
         raise RuntimeError("driver batch failed: " + out[-3000:])
     res = [json.loads(l) for l in open(os.path.join(outdir, "gen.jsonl"))]
